@@ -139,7 +139,7 @@ C05_CONFIGS = [
 def c05_jobs(tier, seed):
     rnd = random.Random(seed)
     jobs = []
-    cfgs = C05_CONFIGS if tier == 'thorough' else C05_CONFIGS[:6]
+    cfgs = C05_CONFIGS if tier == 'thorough' else C05_CONFIGS[:5] + C05_CONFIGS[7:]
     for ci, cc in enumerate(cfgs):
         for hold in ((90, 0, 3) if tier == 'thorough' else (90, 0)):
             vs = open_variants(cc['ras'])
